@@ -695,3 +695,27 @@ func VerifC15Timestamps() {
 	}
 	verifCover("C15/timestamps/end")
 }
+
+// VerifC15Aliases: an alias stands for its anchored node, also as an element that is sorted or compared:
+//   x: &x V   s: [*x, A, B]
+// `.s | sort`, min, max and `.s[0] < .s[1]` give what they give on the exploded document.
+func VerifC15Aliases() {
+	v, a, b := verifInt64("v"), verifInt64("a"), verifInt64("b")
+	build := func() *CandidateNode {
+		x := vInt(verifItoa(v))
+		x.Anchor = "x"
+		return vDoc(vMap(vStr("x"), x, vStr("s"), vSeq(&yaml.Node{Kind: yaml.AliasNode, Value: "x", Alias: x}, vInt(verifItoa(a)), vInt(verifItoa(b)))))
+	}
+	ops := []string{".s | sort", ".s | min", ".s | max", ".s[0] < .s[1]", ".s[1] >= .s[0]", ".s | sort_by(.)", ".s | unique | length"}
+	oi := verifChoice("op", len(ops))
+	label := "op=" + ops[oi]
+	plain, err1 := vEval(vParse(ops[oi]+" | explode(.)"), build())
+	exploded, err2 := vEval(vParse("explode(.) | "+ops[oi]), build())
+	verifAssert((err1 == nil) == (err2 == nil), "C15/operator-fails-on-an-alias-element-only "+label)
+	if err1 != nil || err2 != nil {
+		verifCover("C15/aliases/error")
+		return
+	}
+	verifAssert(verifEqStr(vDumpList(plain), vDumpList(exploded)), "C15/alias-element-not-ordered-as-what-it-stands-for "+label)
+	verifCover("C15/aliases/end")
+}
